@@ -24,7 +24,7 @@ import (
 // Spec file which is a dangling link stays in error after its target has been created under a non-Spec name (no event
 // the watcher reacts to, and Refresh() does not rescan in that mode).  While false, this repair is only generated for
 // manual-refresh caches.
-const defectPendingLinkTargetUnwatched = false
+const defectPendingLinkTargetUnwatched = true // repaired: D26
 
 const (
 	entValid = iota
